@@ -96,6 +96,20 @@ class _DatetimeModuleShim(object):
         return getattr(_real_dt, name)
 
 
+class _SeededNames(object):
+    """Stands in for tempfile's random name sequence (mkdtemp / mkstemp names)."""
+    characters = "abcdefghijklmnopqrstuvwxyz0123456789_"
+
+    def __init__(self, rng):
+        self.rng = rng
+
+    def __iter__(self):
+        return self
+
+    def __next__(self):
+        return "".join(self.rng.choice(self.characters) for _ in range(8))
+
+
 def make_uuid4(rng):
     def uuid4():
         return _uuid.UUID(int=rng.getrandbits(128), version=4)
@@ -189,6 +203,7 @@ def installed(streams, clock=None, sandbox=None, capture=None, sync_threads=True
     tmp = os.path.join(sandbox, "tmp")
     os.makedirs(tmp, exist_ok=True)
     patch(tempfile, "tempdir", tmp)
+    patch(tempfile, "_name_sequence", _SeededNames(streams.get("tmpnames")))
 
     # Fresh process-global loader state for every run.
     fresh_loader_state()
